@@ -21,6 +21,10 @@ SEARCHES = {
     # unit -> (file the module is appended to, module file, package, test filter, what is enumerated)
     "tx_index": ("teos/src/tx_index.rs", "replay_tests/search_tx_index.rs", "teos", "verif_replay_search",
                  "all connect/disconnect sequences up to length 7 over windows of 2 and 3 blocks, blocks with 0..2 transactions"),
+    "wt_client": ("watchtower-plugin/src/wt_client.rs", "replay_tests/search_wt_client.rs", "watchtower-plugin", "verif_replay_search_wt",
+                  "real WTClient over the real client DBM (SQLite in memory): towers {t0,t1}, locators {l0,l1}, three registration receipts; a registration of t0 "
+                  "followed by every sequence of 3 (quick tier: 13 824 sequences) or 4 (thorough tier: 331 776 sequences) operations out of 24 (register / renew, "
+                  "receipt, pending, un-pend, invalid, flag, status, abandon)"),
     "gatekeeper": ("teos/src/gatekeeper.rs", "replay_tests/search_gatekeeper.rs", "teos", "verif_replay_search_gk",
                    "real Gatekeeper over the real DBM (SQLite in memory): users {u0,u1}, locators {l0,l1}, blob lengths {1,2048,2049}, 3 slots per registration, "
                    "(duration, grace) in {(2,1),(2,0),(1,3)}; a registration of u0 followed by every sequence of 4 operations out of 15 (register, submit / "
